@@ -412,9 +412,9 @@ theorem seekRecord_cursor {rot cur mem : List Entry} {t : Int} (hA : Asc (rot ++
     · subst hc
       simp only [ne_eq, not_true_eq_false, if_false]
       by_cases hr : rot = []
-      · simp only [hr, ne_eq, not_true_eq_false, if_false]
+      · simp only [hr, not_true_eq_false, if_false]
         exact ⟨[], rfl, by simp⟩
-      · simp only [ne_eq, hr, not_false_eq_true, if_true]
+      · simp only [hr, not_false_eq_true, if_true]
         refine ⟨filesRev rot [], ?_, hlate hfiles⟩
         simp [seekRot, fileSeek_all_lt hr (fun x hx => hfiles x (by simp [hx]))]
     · have := fileSeek_all_lt hc (fun x hx => hfiles x (by simp [hx]))
